@@ -1,7 +1,7 @@
 (* C13 — property theorems only: each closed by [exact] of a lemma proved elsewhere. *)
 From Helm Require Props.Decisions. (* data conditions of the release operations tied to /repo by the translator: notes/DEC.md *)
 From Coq Require Import List String Bool ZArith.
-From Helm Require Import Values.Tree Values.Merge Values.Coalesce Values.Reuse Values.ReuseProofs.
+From Helm Require Import Values.Tree Values.Merge Values.Coalesce Values.Reuse Values.ReuseProofs Values.ReuseChain.
 Import ListNotations.
 Local Open Scope string_scope.
 
@@ -156,3 +156,116 @@ Example C13_consistent_nonvacuous :
   /\ List.length (fst (run_chain [] ex_ops)) = 6.
 Proof. exact ex_consistent. Qed.
 Print Assumptions C13_consistent_nonvacuous.
+
+(* ---- round 4: histories with failed steps at any position; rollback followed by upgrades ---- *)
+
+(* In every history the operations build from nothing at most one revision is deployed: the one
+   stored by the most recent operation that returned without error ([last_ok] threads that
+   revision number through the chain; failed and rejected operations leave it alone), and
+   prepareUpgrade's currentRelease is that revision — the newest revision only while no operation
+   has returned without error yet. *)
+Theorem C13_deployed_is_last_success : forall (ops : list op) (h : history) (oks : list bool),
+  run_chain [] ops = (h, oks) ->
+  (forall j r, nth_error h j = Some r -> (rstatus r = SDeployed <-> last_ok [] ops None = Some (S j)))
+  /\ (forall n, last_ok [] ops None = Some n -> 1 <= n <= List.length h)
+  /\ (h <> [] -> exists r,
+        current h = Some (match last_ok [] ops None with Some n => n | None => List.length h end, r)).
+Proof. exact deployed_is_last_success. Qed.
+Print Assumptions C13_deployed_is_last_success.
+
+(* The chain theorem with failures.  Any chain from the empty history — installs, upgrades and
+   rollbacks with ARBITRARY failure flags, rejected operations included — cut at any operation
+   [o] that stores a revision (number [length h0 + 1]), with anything after it: at the end of the
+   whole chain that revision still records what it recorded when it was stored, namely
+     upgrade:  the specification [config_spec] applied to the Config of [base], the revision
+               stored by the most recent EARLIER operation that returned without error — which is
+               deployed, and the only deployed revision, however many failed revisions were stored
+               after it; only when no earlier operation returned without error, the newest revision
+               (none is deployed then).  With reuse-values the stored chart's defaults are the
+               values [base]'s templates saw, otherwise the new chart's;
+     rollback: the target's Config, chart and rendered values;
+     install:  its values and chart (the history was empty);
+   and the operation returned without error exactly when it was not made to fail. *)
+Theorem C13_chain_with_failures :
+  forall (pre post : list op) (o : op) (h0 h1 hfin : history) (oks0 oksfin : list bool) (ok : bool),
+  run_chain [] pre = (h0, oks0) ->
+  step h0 o = Some (h1, ok) ->
+  run_chain h1 post = (hfin, oksfin) ->
+  ok = negb (match o with OInstall _ _ fl | OUpgrade _ _ _ fl | ORollback _ fl => fl end)
+  /\ exists r, get_rev hfin (S (List.length h0)) = Some r
+  /\ match o with
+     | OInstall c vals fails => h0 = [] /\ rconfig r = vals /\ rchart r = c
+     | OUpgrade f c vals fails =>
+         exists base,
+           get_rev h0 (match last_ok [] pre None with Some n => n | None => List.length h0 end) = Some base
+           /\ (forall n, last_ok [] pre None = Some n ->
+                 rstatus base = SDeployed
+                 /\ forall j x, get_rev h0 j = Some x -> rstatus x = SDeployed -> j = n)
+           /\ (last_ok [] pre None = None -> forall j x, get_rev h0 j = Some x -> rstatus x <> SDeployed)
+           /\ rconfig r =
+              (if reset_values f then vals
+               else if reuse_values f || reset_then_reuse_values f then coalesce_tables false vals (rconfig base)
+               else if is_empty vals then rconfig base else vals)
+           /\ (negb (reset_values f) && reuse_values f = true -> rchart r = set_values c (rrendered base))
+           /\ (negb (reset_values f) && reuse_values f = false -> rchart r = set_values c (cvalues c))
+     | ORollback v fails =>
+         exists t, get_rev h0 (match v with O => List.length h0 - 1 | _ => v end) = Some t
+           /\ rconfig r = rconfig t /\ rchart r = rchart t /\ rrendered r = rrendered t
+     end.
+Proof. exact chain_with_failures. Qed.
+Print Assumptions C13_chain_with_failures.
+
+(* failed install, successful upgrade (revision 2), then a failed reuse-values upgrade, a failed
+   rollback, a rejected rollback and a failed reset-values upgrade; the reuse-values upgrade looked
+   at carries forward from revision 2 and keeps its defaults; a failing upgrade and a rollback
+   after it do not change what it recorded.  (Revision 1 — the failed install — is superseded by
+   the first successful upgrade: with nothing deployed the newest revision is the one replaced.) *)
+Example C13_chain_with_failures_nonvacuous :
+  let '(h0, oks0) := run_chain [] exf_pre in
+  oks0 = [false; true; false; false; false; false]
+  /\ last_ok [] exf_pre None = Some 2
+  /\ List.length h0 = 5
+  /\ exists h1, step h0 exf_o = Some (h1, true)
+  /\ option_map rconfig (get_rev (fst (run_chain h1 exf_post)) 6)
+     = Some [("t", VMap [("y", VStr "now"); ("x", VStr "u2")]); ("a", VNum 11%Z)]
+  /\ option_map (fun r => cvalues (rchart r)) (get_rev (fst (run_chain h1 exf_post)) 6)
+     = option_map rrendered (get_rev h0 2)
+  /\ map rstatus (fst (run_chain h1 exf_post))
+     = [SSuperseded; SSuperseded; SFailed; SFailed; SFailed; SSuperseded; SFailed; SDeployed].
+Proof. exact ex_chain_with_failures. Qed.
+Print Assumptions C13_chain_with_failures_nonvacuous.
+
+(* C13_rollback_config end to end: after a successful rollback to revision [t] — whose chart may
+   differ from the chart deployed before the rollback — the deployed revision is the rollback's
+   (current = the new revision, with [t]'s Config, chart and rendered values), so the next upgrade,
+   succeeding or failing, records the specification applied to [t]'s Config, and with reuse-values
+   "the chart defaults in force at the deployed revision" are the values [t]'s templates saw. *)
+Theorem C13_rollback_then_upgrade :
+  forall (h : history) (v : nat) (h1 : history) (f : uflags) (c : chart) (vals : vmap) (fails : bool) (h2 : history) (ok : bool),
+  Forall consistent h ->
+  step h (ORollback v false) = Some (h1, true) ->
+  step h1 (OUpgrade f c vals fails) = Some (h2, ok) ->
+  exists t r, get_rev h (match v with O => List.length h - 1 | _ => v end) = Some t
+    /\ current h1 = Some (S (List.length h), set_status SDeployed t)
+    /\ last_rev h2 = Some r
+    /\ rconfig r =
+       (if reset_values f then vals
+        else if reuse_values f || reset_then_reuse_values f then coalesce_tables false vals (rconfig t)
+        else if is_empty vals then rconfig t else vals)
+    /\ (negb (reset_values f) && reuse_values f = true -> rchart r = set_values c (rrendered t))
+    /\ (negb (reset_values f) && reuse_values f = false -> rchart r = set_values c (cvalues c)).
+Proof. exact rollback_then_upgrade. Qed.
+Print Assumptions C13_rollback_then_upgrade.
+
+Example C13_rollback_then_upgrade_nonvacuous :
+  let h := fst (run_chain [] exr_pre) in
+  Forall consistent h
+  /\ exists h1 h2,
+       step h (ORollback 1 false) = Some (h1, true)
+       /\ step h1 (OUpgrade (mkFlags false true false) exf_c3 [("t", VMap [("y", VStr "n")])] false) = Some (h2, true)
+       /\ option_map rconfig (last_rev h2) = Some [("t", VMap [("y", VStr "n"); ("x", VStr "u1")]); ("a", VNum 10%Z)]
+       /\ option_map (fun r => cvalues (rchart r)) (last_rev h2) = option_map rrendered (get_rev h 1)
+       /\ option_map rrendered (last_rev h2)
+          = Some [("t", VMap [("y", VStr "n"); ("x", VStr "u1")]); ("a", VNum 10%Z); ("only1", VStr "d1")].
+Proof. exact ex_rollback_then_upgrade. Qed.
+Print Assumptions C13_rollback_then_upgrade_nonvacuous.
